@@ -8,13 +8,19 @@ from nx.core import Program
 from nx.rules import mustpass
 
 out = {}
+counts = {}
 for cfg in ("default", "tracing", "full"):
     recs, info = extract.extract(cfg)
     P = Program(recs)
     for g in mustpass.COMMIT_GROUPS:
-        today, _ = mustpass.decision_inputs_today(P, g)
+        today, sites = mustpass.decision_inputs_today(P, g)
         dst = out.setdefault(g, {})
+        cnt = counts.setdefault(g, {})
         for k, v in today.items():
             dst[k] = sorted(set(dst.get(k, [])) | v)
+            # number of sites of that effect in that function: the minimum over the configurations that have the function
+            n = len(sites[k])
+            cnt[k] = min(cnt.get(k, n), n)
+out["__counts__"] = counts
 json.dump(out, open(mustpass._DI_PATH, "w"), indent=1, sort_keys=True)
-print({g: len(v) for g, v in out.items()})
+print({g: len(v) for g, v in out.items() if g != "__counts__"})
